@@ -221,4 +221,27 @@ Proof.
     rewrite G. simpl. lia.
 Qed.
 
+(* ---- concatenation is characterised by its pieces ---- *)
+
+Lemma split_from_pieces outer inner N d : forall parts s,
+  map (fun e => piece_at outer inner N (fst e) (snd e) d) (extents s (map fst parts)) = map snd parts ->
+  map (fun e => (snd e, piece_at outer inner N (fst e) (snd e) d)) (extents s (map fst parts)) = parts.
+Proof.
+  induction parts as [|[l x] parts IH]; intros s H; simpl in *; [reflexivity|].
+  injection H as H1 H2. rewrite H1. f_equal. apply IH. exact H2.
+Qed.
+
+(* any array of the stacked size whose slices at the parts' extents are the parts IS the stack:
+   concat_at is the only function with the "slice gives the piece back" property *)
+Lemma concat_unique outer inner parts d :
+  length d = outer * (sumn (map fst parts) * inner) ->
+  map (fun e => piece_at outer inner (sumn (map fst parts)) (fst e) (snd e) d)
+      (extents 0 (map fst parts)) = map snd parts ->
+  concat_at outer inner parts = d.
+Proof.
+  intros Hd H.
+  rewrite <- (split_from_pieces outer inner _ d parts 0 H) at 1.
+  apply (stack_split outer inner (sumn (map fst parts)) (map fst parts) d Hd). reflexivity.
+Qed.
+
 End P.
